@@ -105,6 +105,21 @@ fn measured<T>(f: impl FnOnce() -> T) -> (T, u64) {
 // small helpers
 // ------------------------------------------------------------------------------------------
 
+/// `Stats` keeps the first 50 oracle failures only: repeats of a *known* finding are counted after the
+/// fifth so that they cannot crowd out a failure that matches no known finding.
+fn report_failure(stats: &mut Stats, case: u64, what: &str, finding: &str, replay: Vec<String>) {
+    if !finding.is_empty() {
+        let key = format!("known.{}", finding);
+        stats.count(&key);
+        if stats.counters.get(&key).copied().unwrap_or(0) > 5 {
+            return;
+        }
+    } else {
+        stats.count("unknown-oracle-failures");
+    }
+    stats.oracle_failure(case, what, finding, replay);
+}
+
 /// in-process allocation oracle: `size_of::<RespIndex>() · (MAX_NESTING + 1)` bytes per input byte, the
 /// constant of theorem `C16_alloc` for the tree with f4.diff + f16b.diff (MAX_NESTING = 128)
 const ALLOC_PER_BYTE: u64 = 32 * 129;
@@ -743,7 +758,8 @@ fn pred_legit_block(b: &[u8]) -> bool {
     packets_of(b).iter().any(|c| {
         let c = strip_forward(c);
         let u = c.first().and_then(|x| x.clone()).map(|x| upper(&x)).unwrap_or_default();
-        let blocking = [&b"BLPOP"[..], b"BRPOP", b"BZPOPMIN", b"BZPOPMAX", b"BRPOPLPUSH"].contains(&u.as_slice());
+        // only the list pops take the fake backend's nil bulk string as "nothing there yet"
+        let blocking = [&b"BLPOP"[..], b"BRPOP", b"BRPOPLPUSH"].contains(&u.as_slice());
         let arity = if u == b"BRPOPLPUSH" { c.len() == 4 } else { c.len() > 2 };
         let first_bulk = matches!(c.get(1), Some(Some(_)));
         let t = c.last().and_then(|x| x.clone()).and_then(|x| btoi::btou::<u64>(&x).ok());
@@ -1129,10 +1145,10 @@ fn run_inproc_op(toks: &[&str], st: &mut Streams, op: &str) {
                 st.stats.count(&format!("out.parse.{}", line.split(' ').next().unwrap_or("?")));
                 let c = st.cases;
                 if line == "PANIC" {
-                    st.stats.oracle_failure(c, "parse_resp panicked", if pred_f4(&b) { "F4" } else { "" }, vec![op.to_string()]);
+                    report_failure(&mut st.stats, c, "parse_resp panicked", if pred_f4(&b) { "F4" } else { "" }, vec![op.to_string()]);
                 } else if alloc > ALLOC_PER_BYTE * (b.len() as u64 + 1) {
                     let known = declared_array_lens(&b).iter().any(|n| *n > b.len() as u128);
-                    st.stats.oracle_failure(c, &format!("parse_resp requested {} bytes for {} input bytes", alloc, b.len()),
+                    report_failure(&mut st.stats, c, &format!("parse_resp requested {} bytes for {} input bytes", alloc, b.len()),
                         if known { "F4" } else { "" }, vec![op.to_string()]);
                 }
                 let e = st.stats.extra.entry("max_alloc_per_input_byte".to_string()).or_insert(json!(0.0));
@@ -1150,7 +1166,7 @@ fn run_inproc_op(toks: &[&str], st: &mut Streams, op: &str) {
                 if items > 0 { st.stats.nontrivial_case(op); }
                 if end == "PANIC" {
                     let c = st.cases;
-                    st.stats.oracle_failure(c, "RespCodec::decode panicked", if pred_f4(&b) { "F4" } else { "" }, vec![op.to_string()]);
+                    report_failure(&mut st.stats, c, "RespCodec::decode panicked", if pred_f4(&b) { "F4" } else { "" }, vec![op.to_string()]);
                 }
                 format!("items={} end={} rest={}", items, end, rest)
             }
@@ -1165,7 +1181,7 @@ fn run_inproc_op(toks: &[&str], st: &mut Streams, op: &str) {
                     st.stats.count(&format!("out.slowlog.{}", r));
                     if r == "PANIC" {
                         let c = st.cases;
-                        st.stats.oracle_failure(c, "SlowRequestLogger::add panicked (String::truncate off a char boundary)",
+                        report_failure(&mut st.stats, c, "SlowRequestLogger::add panicked (String::truncate off a char boundary)",
                             if pred_f16c_args(&a) { "F16c" } else { "" }, vec![op.to_string()]);
                     }
                     r.to_string()
@@ -1182,7 +1198,7 @@ fn run_inproc_op(toks: &[&str], st: &mut Streams, op: &str) {
                 st.stats.count(&format!("out.rangemap.{}", r.split(' ').next().unwrap_or("?")));
                 if r == "PANIC" {
                     let c = st.cases;
-                    st.stats.oracle_failure(c, "RangeMap::from panicked on a range list a client can send (compressed UMCTL SETCLUSTER)",
+                    report_failure(&mut st.stats, c, "RangeMap::from panicked on a range list a client can send (compressed UMCTL SETCLUSTER)",
                         if pred_f16d(&rs) { "F16d" } else { "" }, vec![op.to_string()]);
                 }
                 r
@@ -1194,7 +1210,7 @@ fn run_inproc_op(toks: &[&str], st: &mut Streams, op: &str) {
     };
     if out == "PANIC" && !op.starts_with("parse") && !op.starts_with("decode") && !op.starts_with("slowlog") && !op.starts_with("rangemap") {
         let c = st.cases;
-        st.stats.oracle_failure(c, "in-process operation panicked", "", vec![op.to_string()]);
+        report_failure(&mut st.stats, c, "in-process operation panicked", "", vec![op.to_string()]);
     }
     st.op(op, &out);
 }
@@ -1346,7 +1362,7 @@ fn run_child_conn(cx: &mut ChildCtx, st: &mut Streams, input: &[u8], hint: Optio
         "aborted" => {
             let fid = if pred_f4(input) { "F4" } else if pred_f16b(input) { "F16b" } else { "" };
             let why = panics.first().cloned().unwrap_or_default();
-            st.stats.oracle_failure(case, &format!("server_proxy exited ({}) on a client input [{}] {}", cx.proxy.dead().unwrap_or_default(), class, why), fid, replay.clone());
+            report_failure(&mut st.stats, case, &format!("server_proxy exited ({}) on a client input [{}] {}", cx.proxy.dead().unwrap_or_default(), class, why), fid, replay.clone());
         }
         "stalled" if cx.phase != "pre" && pred_legit_block(input) => {
             st.stats.count("stall.legit-blocking-command");
@@ -1355,10 +1371,10 @@ fn run_child_conn(cx: &mut ChildCtx, st: &mut Streams, input: &[u8], hint: Optio
             let served = cx.proxy.served();
             st.stats.count(if served { "stall.other_connection_served" } else { "stall.other_connection_not_served" });
             let fid = if pred_f5(input) { "F5" } else if pred_f16a(input) { "F16a" } else { "" };
-            st.stats.oracle_failure(case, &format!("request neither answered nor connection closed within 5 s [{}] (second connection served: {})", class, served), fid, replay.clone());
+            report_failure(&mut st.stats, case, &format!("request neither answered nor connection closed within 5 s [{}] (second connection served: {})", class, served), fid, replay.clone());
         }
         "refused" | "extra" => {
-            st.stats.oracle_failure(case, &format!("unexpected connection behaviour: {} [{}]", obs.line, class), "", replay.clone());
+            report_failure(&mut st.stats, case, &format!("unexpected connection behaviour: {} [{}]", obs.line, class), "", replay.clone());
         }
         _ => {}
     }
@@ -1366,7 +1382,7 @@ fn run_child_conn(cx: &mut ChildCtx, st: &mut Streams, input: &[u8], hint: Optio
         for pl in &panics {
             let fid = if (pl.contains("capacity overflow") || pl.contains("raw_vec")) && pred_f4(input) { "F4" }
                 else if pl.contains("slowlog.rs") && pred_f16c(input) { "F16c" } else { "" };
-            st.stats.oracle_failure(case, &format!("a session task panicked: {} [{}]", pl, class), fid, replay.clone());
+            report_failure(&mut st.stats, case, &format!("a session task panicked: {} [{}]", pl, class), fid, replay.clone());
         }
     }
     if cx.proxy.dead().is_none() {
@@ -1374,7 +1390,7 @@ fn run_child_conn(cx: &mut ChildCtx, st: &mut Streams, input: &[u8], hint: Optio
         let growth = hwm.saturating_sub(cx.proxy.base_rss);
         cx.max_rss_growth = cx.max_rss_growth.max(growth);
         if hwm > cx.proxy.base_rss + 64 * cx.proxy.bytes_sent + (64 << 20) {
-            st.stats.oracle_failure(case, &format!("peak RSS {} exceeds base {} + 64·{} + 64 MiB [{}]", hwm, cx.proxy.base_rss, cx.proxy.bytes_sent, class), "", replay.clone());
+            report_failure(&mut st.stats, case, &format!("peak RSS {} exceeds base {} + 64·{} + 64 MiB [{}]", hwm, cx.proxy.base_rss, cx.proxy.bytes_sent, class), "", replay.clone());
         }
     }
     if kind == "alive" || kind == "pending" {
@@ -1441,14 +1457,14 @@ fn run_child_setcluster(cx: &mut ChildCtx, st: &mut Streams, textual: bool, rs: 
         let served = cx.proxy.served();
         st.stats.count(if served { "stall.other_connection_served" } else { "stall.other_connection_not_served" });
         // a second metadata update now blocks on the lock held by the spinning one
-        st.stats.oracle_failure(case, &format!("UMCTL SETCLUSTER neither answered nor closed within 5 s (second connection served: {})", served),
+        report_failure(&mut st.stats, case, &format!("UMCTL SETCLUSTER neither answered nor closed within 5 s (second connection served: {})", served),
             if pred_f16e(rs) { "F16e" } else { "" }, replay.clone());
     } else if line == "aborted" {
-        st.stats.oracle_failure(case, "server_proxy exited on UMCTL SETCLUSTER", "", replay.clone());
+        report_failure(&mut st.stats, case, "server_proxy exited on UMCTL SETCLUSTER", "", replay.clone());
     }
     for pl in &panics {
         let fid = if !textual && pred_f16d(rs) && (pl.contains("raw_vec") || pl.contains("capacity overflow") || pl.contains("cluster.rs")) { "F16d" } else { "" };
-        st.stats.oracle_failure(case, &format!("a session task panicked inside set_meta: {}", pl), fid, replay.clone());
+        report_failure(&mut st.stats, case, &format!("a session task panicked inside set_meta: {}", pl), fid, replay.clone());
     }
     if line == "ok" { st.stats.nontrivial_case(&op); }
     st.op(&op, &line);
@@ -1470,7 +1486,7 @@ fn child_stream(args: &Args, rng: &mut Rng) {
     let backend = spawn_backend();
     let proxy = spawn_proxy(&bin, &tmp, ar);
     let mut cx = ChildCtx { bin, tmp, backend_port: backend.port, proxy, phase: "pre".into(), ar, epoch: 0, restarts: 0,
-        nonce: args.seed << 20, walls: vec![], max_rss_growth: 0, quiet_ms: if args.thorough { 120 } else { 250 } };
+        nonce: args.seed << 20, walls: vec![], max_rss_growth: 0, quiet_ms: if args.thorough { 80 } else { 250 } };
     let es = std::mem::size_of::<RespIndex>();
     if let Some(p) = &args.replay {
         st.case();
